@@ -35,6 +35,7 @@ def run(ctx):
     raw_mpi_only_from_parsed_data(ctx, P)
     dropped_prefix_octet_is_compared(ctx, P)
     unprotected_checksum_by_version(ctx, P)
+    unprotected_checksum_on_every_ok_path(ctx, P)
     v2_judged_as_v3(ctx, P)
     sec1_points_have_the_uncompressed_length(ctx, P)
     declared_key_material_fully_consumed(ctx, P)
@@ -1420,3 +1421,25 @@ def mpi_writer_refuses_what_the_reader_refuses(ctx, P):
     ctx.check(P + ':S05-21:mpi-writer-bound', 'R-sib', 'Mpi::to_writer refuses a bit size above the bound at which Mpi::try_from_reader refuses an announced count',
               bool(rc) and bool(rc & wc), function=wb.path, table=dict(reader=sorted(rc), writer=sorted(wc)),
               missing=None if (rc and rc & wc) else 'the reader refuses counts above %s, the writer has no rejecting comparison of the bit size with that bound: an Mpi of more bits is written and cannot be read back' % sorted(rc))
+
+
+def unprotected_checksum_on_every_ok_path(ctx, P):
+    """For the key versions that carry it, the two-octet checksum of unprotected secret key material is COMPARED on every way to an Ok
+    result of PlainSecretParams::try_from_reader (it is also what `unlock` of a usage-255 / legacy-cipher key relies on to refuse a
+    wrong password or changed octets): with the version fixed to V2, V3 or V4 no path reaches a successful return around the
+    comparison - an early `Ok` for "nothing left to read" would accept material whose checksum was cut off."""
+    from rules.common import err_exit_blocks
+    b = ctx.body('types::params::plain_secret::PlainSecretParams::try_from_reader')
+    if b is None:
+        ctx.missing(P + ':S05-18:checksum-on-every-ok-path', 'PlainSecretParams::try_from_reader not found')
+        return
+    cmpb = [i for i, t in b.calls(r'compare_checksum_simple$')]
+    oks = [x for x in ok_exit_blocks(b) if x not in set(err_exit_blocks(b))]
+    bad = {}
+    for v in ('V2', 'V3', 'V4'):
+        wit = b.find_path(0, set(oks), removed=frozenset(cmpb), removed_edges=frozenset(edges_pruned_for_version(b, v)))
+        if wit is not None:
+            bad[v] = fmt_path(b, wit)
+    ctx.check(P + ':S05-18:checksum-on-every-ok-path', 'R-dom', 'for V2, V3 and V4 every successful return of PlainSecretParams::try_from_reader has compared the checksum',
+              bool(cmpb) and bool(oks) and not bad, function=b.path, site=site(b, cmpb[0]) if cmpb else None, witness=next(iter(bad.values())) if bad else None,
+              missing=None if not bad else 'with the version fixed to %s a path reaches Ok without the checksum comparison' % sorted(bad))
